@@ -126,8 +126,14 @@ FillWide == LET gs == WideGeo
             /\ Did(FilledFromSource(g, gs, vals), StreamFillSource(g, L, file, src))
 
 Start == cnt = -1 /\ cnt' = 0 /\ UNCHANGED << g, L, fresh, posT, store, file, err >>
+\* the theorems are checked for EVERY permutation of the segment sequence; for 4 and more segments the histories are explored
+\* for four of them (as is, reversed, the standard sequence, rotated by one)
+NSeg == g.maxSeg - g.minSeg + 1
+HistoryLayout == \/ NSeg < 4
+                 \/ L.seq \in { [i \in 1..NSeg |-> g.minSeg + i - 1], [i \in 1..NSeg |-> g.maxSeg - i + 1], StdSeq(g),
+                                [i \in 1..NSeg |-> g.minSeg + (i % NSeg)] }
 Next == \/ Start
-        \/ /\ cnt >= 0 /\ cnt < Depth
+        \/ /\ cnt >= 0 /\ cnt < Depth /\ HistoryLayout
            /\ (SetBin \/ SetSino \/ SetView \/ SetSegV \/ SetSegS \/ SetRel \/ Fill \/ FillFrom \/ Sapyb \/ FillWide)
 Spec == Init /\ [][Next]_vars
 
